@@ -14,9 +14,10 @@ def out_stream(fail_at=None, fail_mode='error'):
     return Opaque('OutStream', {'writes': [], 'calls': 0, 'fail_at': fail_at, 'fail_mode': fail_mode})
 
 
-def in_stream(lines, fail_at=None):
-    """BufRead source: lines = list of string values *including* their terminator if any; after them: end of input"""
-    return Opaque('InStream', {'lines': list(lines), 'pos': 0, 'calls': 0, 'fail_at': fail_at})
+def in_stream(lines, fail_at=None, chunked=False):
+    """BufRead source: lines = list of string values *including* their terminator if any; after them: end of input.
+    chunked: the first bounded line of >= 2 characters may be delivered in two pieces (fill_buf / consume users see the pieces)"""
+    return Opaque('InStream', {'lines': list(lines), 'pos': 0, 'calls': 0, 'fail_at': fail_at, 'chunked': chunked})
 
 
 def io_error(): return Adt('io::Error', 0, [])
@@ -112,6 +113,43 @@ def _(vm, a, ci):
     if not (isinstance(v, Opaque) and v.kind == 'OutStream'): raise Unmodelled(f'OutStream expected, got {v!r}')
     if w is not None and not _bufwriter_flush(vm, v.data, w): return err(io_error())
     return ok(UNIT)
+
+
+@trait(('*', 'BufRead', 'fill_buf'))
+def _(vm, a, ci):
+    """the reader's buffer holds what one underlying read delivered: a whole line (with its terminator) or -- when the harness
+    enables chunking for bounded lines -- a proper prefix of it (fork); calls / the order log count *lines fetched*"""
+    d = _stream(vm, a[0], 'InStream')
+    if d.get('pending') is None:
+        if d.get('rest') is not None:
+            d['pending'] = d.pop('rest')
+        else:
+            k = d['calls']; d['calls'] += 1
+            io_log(vm).append('in')
+            if d['fail_at'] is not None and k >= d['fail_at']: return err(io_error())
+            if d['pos'] >= len(d['lines']): d['pending'] = const_str(vm, '')
+            else:
+                line = d['lines'][d['pos']]; d['pos'] += 1
+                if isinstance(line, BStr) and d.get('chunked') and len(line.chars()) >= 2 and not d.get('chunk_used'):
+                    from .std_str import _view
+                    n = len(line.chars()); cut = vm.fork(n, note='read-chunk')          # 0: the whole line; k: only its first k characters
+                    if cut:
+                        d['chunk_used'] = True; d['rest'] = _view(line, cut, n); line = _view(line, 0, cut)
+                        vm.io_first_chunk_bytes = line.nbytes()
+                d['pending'] = line
+    return ok(d['pending'])
+
+
+@trait(('*', 'BufRead', 'consume'))
+def _(vm, a, ci):
+    d = _stream(vm, a[0], 'InStream'); n = a[1]
+    p = d.get('pending')
+    if p is None: return UNIT
+    if not isinstance(n, int): raise Unmodelled('BufRead::consume with a symbolic amount')
+    total = str_len(vm, p) if isinstance(p, BStr) else None
+    if total is None or n >= total: d['pending'] = None
+    else: d['pending'] = p.sub(n, total)
+    return UNIT
 
 
 @trait(('*', 'BufRead', 'read_line'))
